@@ -275,6 +275,22 @@ def check(s):
     n_w = 0
     for cls in KINDS:
         n_w += ctor_wiring(s, "C14.10", cls, necessary_for="the bounds / sizes / components a space is built with are the ones it tests membership against and samples from")
+    # a space is a value: its parameters must not change after construction. A constructor that stores the caller's MUTABLE container
+    # (a mapping / list argument kept as is, e.g. "only re-wrap when it is not an OrderedDict already") lets a later mutation by the
+    # caller change membership, equality and hash of the existing space
+    import ast as _ast
+    for cls in KINDS:
+        ci, dc, fn = s.method(cls, "__init__")
+        ann = {a.arg: (_ast.unparse(a.annotation) if a.annotation is not None else "") for a in fn.args.posonlyargs + fn.args.args + fn.args.kwonlyargs}
+        mutable = {k_ for k_, t_ in ann.items() if any(w in t_ for w in ("Mapping", "dict", "Dict", "list", "List", "MutableSequence"))}
+        bal = s.builder(inline=set())
+        aliased = set()
+        for p in live(s.paths(bal, cls, "__init__")):
+            for attr, v in p.self_attrs.items():
+                if isinstance(v, tuple) and len(v) == 2 and v[0] == "param" and v[1] in mutable:
+                    aliased.add(f"self.{attr} = {v[1]}")
+        s.ob("C14.10", f"{cls}.__init__", not aliased, "mutable container arguments are copied into the space (no path stores the caller's own mapping / list)", s.loc(cls, "__init__"),
+             key="aliased-mutable-argument", detail="; ".join(sorted(aliased)), necessary_for="membership, equality and hash of a space do not change during its lifetime")
     for r_, n in (("C14.10", 6), ("C14.1", 12), ("C14.2", 10), ("C14.3", 20), ("C14.4", 20), ("C14.5", 12), ("C14.6", 12), ("C14.7", 3), ("C14.8", 22), ("C14.9", 24)):
         s.floor(r_, n)
 
